@@ -85,8 +85,18 @@ def isValidSymbol (s : String) : Bool :=
      | [] => false
      | c :: cs => isPragmaStart c && cs.all isPragmaCont)
 
-/-- `util::is_valid_pragma`: an identifier, or identifiers joined by dots -/
-def isValidPragma (p : String) : Bool := ((splitOn '.' p.toList).map String.ofList).all isValidSymbol
+/-- an identifier name (reserved words included): what may follow a dot -/
+def isIdentifierName (s : String) : Bool :=
+  match s.toList with
+  | [] => false
+  | c :: cs => isPragmaStart c && cs.all isPragmaCont
+
+/-- `util::is_valid_pragma`: an identifier or a member chain - the object a binding identifier or `this`, the properties
+    identifier names -/
+def isValidPragma (p : String) : Bool :=
+  match (splitOn '.' p.toList).map String.ofList with
+  | [] => false
+  | object :: props => (object == "this" || isValidSymbol object) && props.all isIdentifierName
 
 /-- `is_assignment_target`: can the expression stand on the left of `=`? (TypeScript's type-only wrappers don't matter) -/
 def isAssignmentTarget : Node → Bool
